@@ -27,6 +27,11 @@ type Ser struct {
 
 func (s *Ser) pick(label string, n int) int {
 	if s.St.Canonical {
+		// the canonical style pins every choice, except those a PinnedExcept
+		// chooser leaves free
+		if pe, ok := s.C.(PinnedExcept); ok {
+			return pe.Pick(label, n)
+		}
 		return 0
 	}
 	return s.C.Pick(label, n)
